@@ -21,13 +21,15 @@ OCT = "{0, 1, 9, 10, 99, 100, 199, 200, 255}"
 PORTS = "{0, 1, 9, 10, 99, 100, 999, 1000, 9999, 10000, 65535}"
 INVS = "RoundTripAddr RoundTripAddrPort RoundTripBracketed RoundTripNet Rfc5952Shape CapsOrdered"
 
-def gen_cfg(name, oct_="{}", g6="{}", g6first="{}", ports="{}", pathlens="{}"):
+def gen_cfg(name, oct_="{}", g6="{}", g6first="{}", ports="{}", pathlens="{}", portlo=1, porthi=0, seed=1, nrand=0):
     """partition configs of GenSockAddr are written into the scratch TLC workspace (same module, same invariants;
     only the constants that select the slice of the corpus differ)"""
     ws = common.tlc_workspace()
     with open(os.path.join(ws, name), "w") as f:
         f.write("SPECIFICATION Spec\nCONSTANTS\n  Oct = %s\n  G6 = %s\n  G6First = %s\n  Ports = %s\n  PathLens = %s\n"
-                "INVARIANTS %s\nCONSTRAINT Emit\nCHECK_DEADLOCK FALSE\n" % (oct_, g6, g6first, ports, pathlens, INVS))
+                "  PortLo = %d\n  PortHi = %d\n  Seed = %d\n  NRand = %d\n"
+                "INVARIANTS %s\nCONSTRAINT Emit\nCHECK_DEADLOCK FALSE\n"
+                % (oct_, g6, g6first, ports, pathlens, portlo, porthi, seed, nrand, INVS))
     return name
 
 def run_tlc(ctx, module, cfg, label):
@@ -273,9 +275,16 @@ def run_inner(real, agg):
     g6 = "{0, 1, 65535}" if quick else "{0, 1, 4095, 65535}"
     g6parts = ["{0}", "{1}", "{65535}"] if quick else ["{0}", "{1}", "{4095}", "{65535}"]
     paths = "{1, 2, 50, 106, 107}" if quick else "{1, 2, 3, 7, 50, 100, 105, 106, 107}"
-    jobs = [("GenSockAddr", gen_cfg("GenSockAddr_p4.cfg", oct_=OCT, ports=PORTS, pathlens=paths), "GenSockAddr/v4+ports+unix")]
+    seed = ctx.seed % 65536
+    jobs = [("GenSockAddr", gen_cfg("GenSockAddr_p4.cfg", oct_=OCT, ports=PORTS, pathlens=paths, seed=seed, nrand=300 if quick else 4000),
+             "GenSockAddr/v4 boundary octets^4 + boundary ports + unix + seeded random")]
     for n, part in enumerate(g6parts):
         jobs.append(("GenSockAddr", gen_cfg("GenSockAddr_p6%d.cfg" % n, g6=g6, g6first=part), "GenSockAddr/v6 first group %s of %s^8" % (part, g6)))
+    if not quick:     # every port 0..65535 on one address per family, in 4 slices; more seeded random addresses
+        for n in range(4):
+            jobs.append(("GenSockAddr", gen_cfg("GenSockAddr_ps%d.cfg" % n, portlo=n * 16384, porthi=n * 16384 + 16383,
+                                                seed=seed + 1 + n, nrand=4000),
+                         "GenSockAddr/all ports %d..%d + seeded random" % (n * 16384, n * 16384 + 16383)))
     jobs.append(("GenSockAddrNeg", "GenSockAddrNeg.cfg" if quick else "GenSockAddrNeg_thorough.cfg", "GenSockAddrNeg"))
     jobs.append(("GenSockAddrPrefix", "GenSockAddrPrefix.cfg" if quick else "GenSockAddrPrefix_thorough.cfg", "GenSockAddrPrefix"))
     builds = [("clang", "-O1", "asan", [])]
@@ -317,10 +326,10 @@ def run_inner(real, agg):
         pst = collections.Counter(); pst["texts"] = set()
         xst = collections.Counter()
         cases = fmt_cases
-        if not first:      # extra builds: the port sweep, unix, and a seeded 1/8 sample of the address products
+        if not first:      # extra builds: the UNIX paths and a seeded 1/8 sample of everything else
             import random
             rnd = random.Random(ctx.seed)
-            cases = [c for c in fmt_cases if c["port"] or c["fam"] == "u" or rnd.random() < 0.125]
+            cases = [c for c in fmt_cases if c["fam"] == "u" or rnd.random() < 0.125]
         fh = fmt_handle(agg, fst)
         run_.run(fmt_items(cases, True), fh)
         run_.run(fmt_items(cases, False), fh, chunk=50000)
@@ -379,8 +388,9 @@ def run_inner(real, agg):
     ctx.add(samples=[{"op": FN_PARSE[c["fn"]], "text": bytes(c["t"]).decode("latin1"), "expect": c["r"]["v"], "why": c["r"]["why"]}
                      for c in neg_cases if c["r"]["v"] == "reject"][:3])
     ctx.cov["rule"] = ("cases are the reachable states of GenSockAddr (IPv4 boundary octets^4, IPv6 groups^8 = every zero-run "
-                       "shape, representative addresses x boundary ports, UNIX paths up to sun_path), each formatted into EVERY "
-                       "capacity 0..sure+1; GenSockAddrNeg (every single-character edit of valid texts, long texts); "
+                       "shape, representative addresses x boundary ports, seeded pseudo-random addresses with random ports, "
+                       "thorough: every port 0..65535 on one address per family, UNIX paths up to sun_path), each formatted "
+                       "into EVERY capacity 0..sure+1; GenSockAddrNeg (every single-character edit of valid texts, long texts); "
                        "GenSockAddrPrefix (all prefix lengths incl. out of range, all masks, truncation, membership). "
                        "distinct_nontrivial = distinct (function, exact text) pairs produced / decided by the parsers + prefix cases; "
                        "a capacity sweep of one address counts once.")
